@@ -23,8 +23,8 @@ Proof. intros F. unfold Kinv, fresh_complete. rewrite !F. auto. Qed.
 
 Lemma Kinv_trivial n th st : locked (tpc th) = false -> ~ in_load_window th -> Kinv n th st.
 Proof.
-  unfold Kinv, in_load_window. destruct (tpc th) as [| | | | | | | | | | | | | | | | | |? j| | | | | | | | | |]; simpl; intros; auto; try discriminate.
-  destruct j; tauto.
+  unfold Kinv, in_load_window. destruct (tpc th); simpl; intros; auto; try discriminate;
+    repeat match goal with j : kind |- _ => destruct j end; try tauto; try discriminate.
 Qed.
 
 Lemma Kall_step n L s l s' e :
@@ -121,7 +121,7 @@ Proof.
     assert (Hwin : in_load_window th) by (unfold in_load_window; rewrite Hp0; exact I).
     unfold no_overlap in Hno. specialize (Hno _ _ _ _ Ha Ho Hto Hto2 Hwin).
     unfold quiet2, Kinv, in_save_window in *.
-    destruct (tpc th2) as [| | | | | | |[]| | | | | |[]|[]| | | | | | | | | | | | | |]; simpl in *; auto; try tauto.
+    destruct (tpc th2); repeat match goal with j : kind |- _ => destruct j end; simpl in *; auto; try tauto.
     destruct K2 as (_ & v2 & Hc2 & Hv2). rewrite Hc in Hc2. inversion Hc2; subst. auto.
 Qed.
 
@@ -243,11 +243,11 @@ Proof.
   assert (A : existsb (fun th => touches_b n (cfg th) && load_window_b th) (thr s) = true).
   { apply existsb_exists. exists th1. split; [eapply nth_error_In; eauto|].
     rewrite touches_b_true by auto. unfold in_load_window in W1; unfold load_window_b.
-    destruct (tpc th1) as [| | | | | | | | | | | | | | | | | |? []| | | | | | | | | |]; simpl in *; auto. }
+    destruct (tpc th1); repeat match goal with j : kind |- _ => destruct j end; simpl in *; auto. }
   assert (B : existsb (fun th => touches_b n (cfg th) && save_window_b th) (thr s) = true).
   { apply existsb_exists. exists th2. split; [eapply nth_error_In; eauto|].
     rewrite touches_b_true by auto. unfold in_save_window in W2; unfold save_window_b.
-    destruct (tpc th2) as [| | | | | | | | | | | | |[]| | | | | | | | | | | | | | |]; simpl in *; auto. }
+    destruct (tpc th2); repeat match goal with j : kind |- _ => destruct j end; simpl in *; auto. }
   rewrite A, B in H. discriminate.
 Qed.
 
